@@ -20,6 +20,8 @@ CHECKS = {
     'C18': ('VecMath.tla', 'exact integer/rational TLA+ reference of desper.math evaluated by TLC on enumerated operand families (algebraic laws checked as invariants on the reference); the table is replayed into the real classes with int and Fraction operands and compared exactly (tolerance only for sqrt/angle results). Partial: sampled, not proved, see DESIGN section 7', '6 C18, 7'),
     'C19': ('World.tla + Shorthands.tla', 'every World action of the specification is executed through each access path (Controller methods, module-level shorthands, Component/ProcessorReference descriptors) and must land in the same model successor; Prototype source priority enumerated by TLC; OnUpdateProcessor relay', '6 C19'),
     'C20': ('Transform.tla', 'TLA+ spec of Transform2D/3D setters over the dispatcher (stored value, per-call bag of notifications) with invariants StoredIsReduced / NotifiedValueIsReadBack / OnlyMatchingEvent / OncePerListener; every edge, all short paths and random walks replayed on the real classes', '6 C20'),
+    'C08': ('Coroutines.tla', 'TLA+ spec of CoroutineProcessor with the code\'s own structures (deque with sentinel, wait heap on the shared resetting timer) and per-coroutine ghost clocks; TLC checks TimerInvariant, WakeExactlyOnTime, OneStepPerFrame, RelativeOrderKept for all start orders and dt sequences of the instance; replay runs scripted generators on the real processor with exactly representable dt', '6 C08'),
+    'C09': ('Coroutines.tla', 'start / kill / restart / state / promise as actions, also issued from inside coroutine bodies; TLC invariants StateCoherent, NoDuplicates, StructuresAgree, ErrorsChangeNothing, ReleasedInTime; replay compares state (processor and promise), promise value, exceptions, execution log and whether the processor still references each generator', '6 C09'),
     'C10': ('Dispatcher.tla', 'TLA+ spec with weakly held handlers, DropRef between calls and between two callbacks of one dispatch under every iteration order; replay with real weak references and gc', '6 C10'),
 }
 
